@@ -74,8 +74,6 @@ func Relocate(err error, filename string, line, col int) error {
 		}
 	case *scanner.Error:
 		relocatePos(&e.Pos, filename, line, col)
-	default:
-		panic("todo: " + reflect.TypeOf(err).String())
 	}
 	return err
 }
